@@ -662,7 +662,10 @@ def check_sample(ck, sp, patterns=(None,)):
     concrete.validate(ck, tr, n=2, seed=ck.seed, label=f"{fam}.sample@{sp_label(sp)}")
     boxes = box_leaves(sp)
     for pat in patterns:
-        it = Interp()
+        # infinite bounds make non-finite intermediates real (inf - inf, 0 * inf): those configurations are interpreted over the reals extended with the IEEE
+        # special values (XREAL), where 0 * x is 0 only for finite x; all-finite configurations stay in plain REAL mode
+        from jaxsmt.xreal import XRInterp
+        it = XRInterp() if (pat and any(c != "bounded" for c in pat)) else Interp()
         S = tr.symbols(it)
         wf = []
         for name, _ in boxes:
